@@ -259,8 +259,10 @@ TAIL = 1e-9
 TAIL_MIN = 1e-12
 
 
-def effective_range(ref, xmin, xmax):
-    """(s_lo, s_hi, resolvable).  Finite support ends of 'id' references are used exactly."""
+def effective_range(ref, xmid):
+    """(s_lo, s_hi, resolvable): points with reference tail mass in [TAIL_MIN, TAIL], searched outwards
+    from xmid (the sample median) with the reference cdf / sf only - so the range does not depend on how
+    far a (possibly wrong) sampler strays.  Finite support ends of 'id' references are used exactly."""
     lim_lo, lim_hi = ref.s_limits()
     ok = True
 
@@ -300,25 +302,32 @@ def effective_range(ref, xmin, xmax):
                 a = m
         return b, True
 
+    s_mid = ref.to_s(xmid) if abs(xmid) < INF else ref.center
+    if not (lim_lo <= s_mid <= lim_hi) or ref.cdf(ref.from_s(s_mid)[0]) <= TAIL or ref.sf(ref.from_s(s_mid)[0]) <= TAIL:
+        # the sample median is not inside the bulk of the reference (wrong sampler): start from a point
+        # that is, found by bisection on the reference cdf over the representable range
+        a, b = (max(lim_lo, -1e6 * ref.scale + ref.center), min(lim_hi, 1e6 * ref.scale + ref.center)) \
+            if ref.tr == "id" else (lim_lo, lim_hi)
+        if ref.tr == "id":
+            a, b = max(a, ref.lo), min(b, ref.hi)
+        for _ in range(200):
+            s_mid = 0.5 * (a + b)
+            c = ref.cdf(ref.from_s(s_mid)[0])
+            if c < 0.25:
+                a = s_mid
+            elif c > 0.75:
+                b = s_mid
+            else:
+                break
     if ref.tr == "id" and ref.lo > -INF:
         s_lo = ref.lo
     else:
-        s0 = ref.to_s(xmin) if xmin > -INF else ref.center
-        if s0 == -INF or s0 < lim_lo:
-            s0 = lim_lo
-        if s0 == INF or s0 > lim_hi:
-            s0 = lim_hi
-        s_lo, r = search(ref.cdf, s0, -1, lim_lo)
+        s_lo, r = search(ref.cdf, s_mid, -1, lim_lo)
         ok = ok and r
     if ref.tr == "id" and ref.hi < INF:
         s_hi = ref.hi
     else:
-        s0 = ref.to_s(xmax) if xmax < INF else ref.center
-        if s0 == INF or s0 > lim_hi:
-            s0 = lim_hi
-        if s0 == -INF or s0 < lim_lo:
-            s0 = lim_lo
-        s_hi, r = search(ref.sf, s0, +1, lim_hi)
+        s_hi, r = search(ref.sf, s_mid, +1, lim_hi)
         ok = ok and r
     return s_lo, s_hi, ok
 
@@ -401,7 +410,7 @@ class Quad:
 # --------------------------------------------------------------------------------------------
 # Kolmogorov-Smirnov: lower bound of D from ~npts order statistics (ties handled)
 # --------------------------------------------------------------------------------------------
-ALPHA = 1e-9
+ALPHA = 1e-10
 
 
 def ks_threshold(n):
